@@ -4,4 +4,5 @@ void registerAll()
     reg_range();
     reg_parser();
     reg_sock();
+    reg_srv();
 }
